@@ -346,6 +346,35 @@ def semantic_cases(rng, rounds, tmp):
             yield ("digest-check-after-reload", inp, obs == (True, False), obs, (True, False))
         except Exception as ex:  # noqa: BLE001
             yield ("digest-password", inp, False, errname(ex), "no error")
+    # htpasswd: a password given as text is the file encoding's bytes, in set_password as in check_password (independent expectation:
+    # {MD5} + base64(md5(bytes)) under an ldap_md5 context); every file encoding, text and bytes arguments
+    import base64
+
+    from passlib.context import CryptContext
+
+    for _ in range(rounds):
+        enc = rng.choice(["utf-8", "latin-1", "latin-1", "cp1252", "iso-8859-15"])
+        u, pw = rng.choice(users), rng.choice(pws)
+        as_bytes = rng.random() < 0.3
+        try:
+            ub, pb = u.encode(enc), pw.encode(enc)
+        except UnicodeEncodeError:
+            continue
+        inp = {"op": "passwd-password", "encoding": enc, "user": u, "password": pw, "bytes_args": as_bytes}
+        try:
+            f = apache.HtpasswdFile(encoding=enc, context=CryptContext(["ldap_md5"]))
+            f.set_password(u, pb if as_bytes else pw)
+            want = "{MD5}" + base64.b64encode(hashlib.md5(pb).digest()).decode()
+            got = f.get_hash(u)
+            got = got if isinstance(got, str) else got.decode()
+            yield ("passwd-hash-is-of-encoded-password", inp, got == want, got, want)
+            obs = (f.check_password(u, pw), f.check_password(u, pb), f.check_password(u, pw + "x"), f.check_password("nobody", pw))
+            yield ("passwd-check_password", inp, obs == (True, True, False, None), obs, (True, True, False, None))
+            g = apache.HtpasswdFile.from_string(f.to_string(), encoding=enc, context=CryptContext(["ldap_md5"]))
+            obs = (g.check_password(u, pw), g.check_password(u, pw + "x"))
+            yield ("passwd-check-after-reload", inp, obs == (True, False), obs, (True, False))
+        except Exception as ex:  # noqa: BLE001
+            yield ("passwd-password", inp, False, errname(ex), "no error")
     # names
     bad = ["a:b", "a\nb", "a\rb", "a\tb", "a\x00b", "x" * 256, "é" * 128, "€" * 86, "x" * 254 + "é"]
     good = ["x" * 255, "é" * 127, "€" * 85, "a b"]
@@ -399,6 +428,41 @@ def semantic_cases(rng, rounds, tmp):
         for pth in (path, other):
             if os.path.exists(pth):
                 os.unlink(pth)
+    # reload-if-changed: a bound file replaced by another version is re-read whatever its timestamp (newer, older — a restored backup,
+    # cp -p, rsync -t — or far in the past); an untouched file is not
+    for cls, a, b in ((apache.HtpasswdFile, b"u1:h1\nu2:h2\n", b"u1:h9\n"), (apache.HtdigestFile, b"u1:r1:h1\nu2:r1:h2\n", b"u1:r1:h9\n")):
+        for delta in (-86400 * 400, -3600, -2, -1, 1, 2, 3600):
+            path = os.path.join(tmp, "reload_db")
+            with open(path, "wb") as fh:
+                fh.write(a)
+            t0 = int(time.time()) - 1000
+            os.utime(path, (t0, t0))
+            f = cls(path)
+            unchanged = f.load_if_changed()
+            with open(path, "wb") as fh:
+                fh.write(b)
+            os.utime(path, (t0 + delta, t0 + delta))
+            changed = f.load_if_changed()
+            inp = {"op": "reload-if-changed", "class": cls.__name__, "mtime_delta": delta}
+            obs = {"untouched": unchanged, "replaced": changed, "state": f.to_string().decode()}
+            yield ("reload-if-changed", inp, unchanged is False and changed is True and f.to_string() == b, obs, {"untouched": False, "replaced": True, "state": b.decode()})
+            os.unlink(path)
+    # the first record is read like any other: every first byte a name may start with (0x21..0xFF except ':' and '#'), both classes,
+    # loaded from a string; the record is there under exactly that name and the export is the input
+    for cls, tail in ((apache.HtpasswdFile, b"x:h1\nv:h2\n"), (apache.HtdigestFile, b"x:r1:h1\nv:r1:h2\n")):
+        for first in range(0x21, 0x100):
+            if first in (0x3A, 0x23):
+                continue
+            data = bytes([first]) + tail
+            inp = {"op": "first-record-byte", "class": cls.__name__, "byte": first}
+            try:
+                f = cls.from_string(data, encoding="latin-1")
+                keys = sorted(repr(k) for k in f._records)
+                want_name = bytes([first]) + b"x"
+                wk = sorted(repr(k) for k in ([want_name, b"v"] if cls is apache.HtpasswdFile else [(want_name, b"r1"), (b"v", b"r1")]))
+                yield ("first-record-byte", inp, keys == wk and f.to_string() == data, {"keys": keys, "export": f.to_string().decode("latin-1")}, {"keys": wk, "export": data.decode("latin-1")})
+            except Exception as ex:  # noqa: BLE001
+                yield ("first-record-byte", inp, False, errname(ex), "loads")
     # autosave: disk == export after every change, including the hash upgrade made by check_password
     cobj = CryptContext(["ldap_salted_sha1", "ldap_md5"], deprecated=["ldap_md5"])
     for _ in range(max(4, rounds // 10)):
@@ -669,5 +733,13 @@ def replay(ctx, inp):
         live = {(k,): v for k, v in f._records.items()}
         got = independent_reader(text, 2)
         return {"fails": got != live, "observed": {"export": text.decode("latin-1"), "reread": repr(got), "records": repr(live)}}
+    if inp.get("op") == "passwd-password":
+        from passlib import apache
+
+        f = apache.HtpasswdFile(encoding=inp["encoding"])
+        pw = inp["password"]
+        f.set_password(inp["user"], pw.encode(inp["encoding"]) if inp.get("bytes_args") else pw)
+        obs = (f.check_password(inp["user"], pw), f.check_password(inp["user"], pw.encode(inp["encoding"])))
+        return {"fails": obs != (True, True), "observed": repr(obs)}
     r = search(ctx, [], [])
     return {"fails": r is not None, "observed": r}
